@@ -26,6 +26,8 @@ def _work(job):
     _quiet()
     from . import calcases
     try:
+        if job["kind"] == "fb":
+            return {"ok": True, "fb": calcases.run_freebusy_cases(job["cases"], job["frontend"])}
         if job["kind"] == "time":
             out, info = calcases.run_time_cases(job["cases"], job["zone"], job["mode"], job["frontend"])
             return {"ok": True, "time": out, "info": info}
@@ -57,12 +59,13 @@ def run(prop, tier, seed, replay=None):
     for (zone, mode) in scen:
         jobs.append({"kind": "time", "cases": tables["time"], "zone": zone, "mode": mode, "frontend": "wsgi"})
     jobs.append({"kind": "filter", "table": tables["filters"], "frontend": "wsgi"})
+    jobs.append({"kind": "fb", "cases": tables["time"], "frontend": "wsgi"})
     if not quick:
         jobs.append({"kind": "time", "cases": tables["time"], "zone": None, "mode": "utc", "frontend": "aiohttp"})
         jobs.append({"kind": "filter", "table": tables["filters"], "frontend": "aiohttp"})
     with multiprocessing.get_context("fork").Pool(min(15, len(jobs))) as pool:
         outs = pool.map(_work, jobs, chunksize=1)
-    time_obs, filt_obs = [], []
+    time_obs, filt_obs, fb_obs = [], [], []
     data_ok = True
     data_checked = 0
     for o in outs:
@@ -70,14 +73,19 @@ def run(prop, tier, seed, replay=None):
             common.machinery_failure("harness exception:\n" + o["error"])
         time_obs.extend(o.get("time", []))
         filt_obs.extend(o.get("filters", []))
+        fb_obs.extend(o.get("fb", []))
         if "info" in o:
             data_ok = data_ok and o["info"]["data_ok"]
             data_checked += o["info"]["data_checked"]
     results, stat = tlc.validate_traces("CalQueryTrace", "CalQueryTrace.cfg",
-                                        {"time": time_obs, "filters": filt_obs},
+                                        {"time": time_obs, "filters": filt_obs, "fb": fb_obs},
                                         constants={"EnabledDevs": tlc.tla_set(devs)})
     notstored = 0
+    ext = {}
     for v in sorted(results, key=lambda v: (v["t"], v["i"])):
+        if v["k"] == "ext":
+            ext[v["dev"]] = ext.get(v["dev"], 0) + 1
+            continue
         rec = (time_obs if v["t"] == "time" else filt_obs)[v["i"] - 1]
         if v["k"] == "note":
             notstored += 1
@@ -89,6 +97,9 @@ def run(prop, tier, seed, replay=None):
                           {"property": prop, "verdict": v, "case": rec})
     if not data_ok:
         rep.violation("calendar-data of a returned resource differs from GET", {"property": prop})
+    for d, n in sorted(ext.items()):
+        rep.note("extension (free-busy-query, RFC 4791 7.10, not a listed property): %s in %d case(s)" % (d, n))
+    rep.coverage["extension_freebusy"] = {"cases": len(fb_obs), "deviations": ext}
     if notstored:
         rep.note("%d generated objects were refused by the server at upload and are not judged" % notstored)
     distinct = {json.dumps(r["c"], sort_keys=True) + r["mode"] + r["zone"] for r in time_obs} | \
